@@ -271,6 +271,10 @@ func runC17(c *Ctx, r *Report, tier string) {
 		}
 		r.Check(nCut >= 1, "WRAP", wn, "cut sites", c.pos(wt.Pos()), "found", "no line[:pos] cut found")
 		c.wrapCutRule(r, "WRAP", wt, lVal)
+		// no shortcut around the paragraph loop: embedded newlines get the continuation prefix on every path
+		for _, ret := range returnsOf(wt) {
+			c.mptRule(r, "WRAP", wt, ret, "every result went through the per-paragraph loop", c.isCallTo("strings.Split"), "call strings.Split(s, \"\\n\")", nil)
+		}
 	}
 
 	// ---- TERM
